@@ -1,6 +1,6 @@
 (* Property C16 — mesh equality is sound, total and independent of the representation (explicit part). *)
 From Coq Require Import QArith Qabs Qminmax Arith Bool List Permutation.
-From FC Require Import Model.Scalar Model.Mesh Proofs.ScalarP Proofs.MeshP.
+From FC Require Import Model.Scalar Model.Mesh Model.Structured Model.ImageEq Proofs.ScalarP Proofs.MeshP Findings.F_C16c.
 Import ListNotations.
 Local Open Scope nat_scope.
 
@@ -49,6 +49,25 @@ Print Assumptions C16_compat_table.
 Theorem C16_points_close_refl : forall rel abs P, (0 <= abs)%Q -> points_close rel abs P P = true.
 Proof. exact points_close_refl. Qed.
 Print Assumptions C16_points_close_refl.
+
+(* image meshes: agreeing parameters always give 'equal' (second clause of the statement) ... *)
+Theorem C16_image_equals_complete : forall rel abs A,
+  (0 <= abs)%Q -> image_equals rel abs A A = true.
+Proof.
+  intros rel abs A H. unfold image_equals.
+  assert (V : forall v, vec_close rel abs v v = true).
+  { induction v as [|x v IH]; simpl; [reflexivity|]. rewrite fuzzy_q_refl by exact H. exact IH. }
+  assert (N : forall l, nat_list_eqb l l = true).
+  { induction l as [|x l IH]; simpl; [reflexivity|]. rewrite Nat.eqb_refl. exact IH. }
+  rewrite N, !V. reflexivity.
+Qed.
+Print Assumptions C16_image_equals_complete.
+
+(* ... but the first clause ("never 'equal' where the explicit representation is 'unequal'") is REFUTED for the faithful
+   model of ImageMesh.equals: open finding F-C16c (Findings/F_C16c.v) *)
+Theorem C16_image_equals_sound_refuted : ~ C16_image_sound_statement.
+Proof. exact F_C16c_refuted. Qed.
+Print Assumptions C16_image_equals_sound_refuted.
 
 Example C16_nonvacuous :
   let A := {| pts := [[0#1]; [1#1]]; cells := [(8, [[0;1;1;0]]); (9, [[0;1;1;0]])] |} in
